@@ -22,3 +22,29 @@ Proof.
   inversion Heq; subst k' v. apply rise_piece_crossing.
   intros Heq'. apply in_targets_ceil in Hk. revert Hk. apply between_flat. symmetry. exact Heq'.
 Qed.
+
+(** The recession side: a piece starting at underlying time c samples a curve
+    whose inverse (level -> time) is affine between two consecutive samples
+    (the recession curve is linear on every sampling step).  The crossing the
+    regrid model reports on that pair is the underlying time of the level minus
+    c - the planted relation with T = the inverse curve. *)
+Lemma recession_pair_crossing (c x0 Y0 x1 Y1 TY0 TY1 Tk : Q) (k : Z) :
+  ~ Y1 == Y0 ->
+  TY0 == c + x0 -> TY1 == c + x1 ->
+  Tk == TY0 + (inject_Z k - Y0) * (TY1 - TY0) / (Y1 - Y0) ->
+  cross x0 Y0 x1 Y1 k == Tk - c.
+Proof.
+  intros Hne H0 H1 Hk. unfold cross. rewrite Hk, H0, H1. field. intros H. apply Hne. lra.
+Qed.
+
+Theorem recession_pair_is_planted (c x0 Y0 x1 Y1 TY0 TY1 Tk : Q) (k : Z) (v : Q) :
+  TY0 == c + x0 -> TY1 == c + x1 ->
+  Tk == TY0 + (inject_Z k - Y0) * (TY1 - TY0) / (Y1 - Y0) ->
+  In (k, v) (seg_out (x0, Y0) (x1, Y1)) ->
+  v == Tk - c.
+Proof.
+  intros H0 H1 Hk. unfold seg_out. cbn [fst snd]. intros H. apply in_map_iff in H.
+  destruct H as (k' & Heq & Hin). inversion Heq; subst k' v.
+  apply (recession_pair_crossing c x0 Y0 x1 Y1 TY0 TY1 Tk k); try assumption.
+  intros Heq'. apply in_targets_ceil in Hin. revert Hin. apply between_flat. symmetry. exact Heq'.
+Qed.
